@@ -394,7 +394,7 @@ func (x *Exec) assumeStructInv(st *State, env *CEnv, v *Val, t types.Type) {
 		named = named[:i]
 	}
 	for _, inv := range x.cs.Invs {
-		if inv.Type == named {
+		if inv.Type == named && inv.Lock == "" {
 			sub := &CEnv{x: x, st: st, vars: map[string]*Val{"self": v}, pkg: inv.Pkg, oldHeap: env.oldHeap, contract: env.contract}
 			st.assume(tm(SBool, "(=> (not (= %s 0)) %s)", v.S.S, sub.hyp(inv.Cl).S))
 		}
